@@ -153,10 +153,54 @@ def props_obligations(pid: str, workdir: Path):
             "print_assumptions_count": len(names), "blocks": len(blocks)}
 
 
+_BIGNAT = re.compile(r"(?:Init\.)?Nat\.of_num_uint\s*\(\s*Number\.UIntDecimal\s*\(")
+
+
+def denat(text: str) -> str:
+    """Coq prints a nat numeral above 5000 as `Init.Nat.of_num_uint (Number.UIntDecimal (Decimal.D6 (Decimal.D0 ... Decimal.Nil))))`
+    (case identifiers of the thorough tiers get that large): rewrite those back to `6000%nat` so that every parser sees one format."""
+    out, pos = [], 0
+    while True:
+        m = _BIGNAT.search(text, pos)
+        if not m:
+            out.append(text[pos:])
+            return "".join(out)
+        start = m.start()
+        lead = text[:start].rstrip()
+        paren = lead.endswith("(")
+        i, digits, opened = m.end(), [], 2
+        while True:
+            m2 = re.compile(r"\s*Decimal\.D(\d)\s*\(?").match(text, i)
+            if not m2:
+                break
+            digits.append(m2.group(1))
+            opened += 1 if m2.group(0).rstrip().endswith("(") else 0
+            i = m2.end()
+        m3 = re.compile(r"\s*Decimal\.Nil").match(text, i)
+        if not m3 or not digits:
+            out.append(text[pos:m.end()])
+            pos = m.end()
+            continue
+        i = m3.end()
+        need = opened + (1 if paren else 0)
+        while need and i < len(text) and text[i] in " \n\t)":
+            if text[i] == ")":
+                need -= 1
+            i += 1
+        out.append(text[pos:len(lead) - 1] if paren else text[pos:start])
+        out.append("".join(digits) + "%nat")
+        pos = i
+
+
 def run_coq_file(path: Path, timeout=900) -> tuple[int, str, str]:
-    p = subprocess.run(["timeout", str(timeout), "coqc", "-Q", str(COQ), "QV", "-w", "-all", str(path)],
-                       capture_output=True, text=True, cwd=path.parent)
-    return p.returncode, p.stdout, p.stderr
+    cmd = ["timeout", str(timeout), "coqc", "-Q", str(COQ), "QV", "-w", "-all", str(path)]
+    p = subprocess.run(cmd, capture_output=True, text=True, cwd=path.parent)
+    if p.returncode != 0:
+        # one retry: a loaded machine produces transient failures (timeouts, "Can't open ....vo"); a genuine failure fails again
+        time.sleep(1.0)
+        path.parent.mkdir(parents=True, exist_ok=True)
+        p = subprocess.run(cmd[:1] + [str(2 * timeout)] + cmd[2:], capture_output=True, text=True, cwd=path.parent)
+    return p.returncode, denat(p.stdout), p.stderr
 
 
 def run_coq_cases(workdir: Path, header: str, cases: list[str], per_file=400, timeout=900, tag="cases",
@@ -336,7 +380,8 @@ class Result:
         print(f"[{self.pid}] tier={self.tier} seed={self.seed} obligations={cov.get('obligations')} "
               f"discharged={cov.get('discharged')} evaluations={cov.get('evaluations')} "
               f"violations={violations} wall={ev['wall_s']}s")
-        shutil.rmtree(self.workdir, ignore_errors=True)
+        if not os.environ.get("QV_KEEP_WORK"):
+            shutil.rmtree(self.workdir, ignore_errors=True)
         return 1 if violations else 0
 
 
